@@ -108,7 +108,7 @@ def gen_tree(rng, pl, tier="quick", layout=None, allow_single=True, min_files=1,
     if not allow_single:
         layouts = [l for l in layouts if l != "single"]
     if layout is None and rng.random() < (0.04 if tier == "quick" else 0.08):
-        layout = rng.choice(["many", "deep"])
+        layout = rng.choice(["many", "deep", "many", "deep", "thousands", "abyss"])
     layout = layout or rng.choice(layouts)
     pool = [n for n in NAME_POOL if n.isascii()] if ascii_names else NAME_POOL
     dpool = [n for n in DIR_POOL if n.isascii()] if ascii_names else DIR_POOL
@@ -124,6 +124,19 @@ def gen_tree(rng, pl, tier="quick", layout=None, allow_single=True, min_files=1,
         files = _gen_many(rng, pl, cs)
     elif layout == "deep":
         files = _gen_deep(rng, pl, cs)
+    elif layout == "thousands":
+        # 1500-3000 files in a few hundred directories: listings, file lists and piece maps of real-world size
+        nd = rng.randint(50, 300)
+        files = [[f"d{i % nd:03d}/" * (1 + i % 3) + f"f{i:05d}", rng.choice([0, 1, 9, 100, 700, rng.randint(0, 3000)]), cs + i]
+                 for i in range(rng.randint(1500, 3000))]
+        files.append(["tail.bin", pl + rng.choice([0, 1, -1]), cs - 1])
+    elif layout == "abyss":
+        # directory depth 30-60 with short component names (the whole path stays far below PATH_MAX)
+        files = []
+        for i in range(rng.randint(2, 4)):
+            depth = rng.randint(30, 60)
+            files.append(["/".join(f"{chr(97 + (i + k) % 26)}{k % 7}" for k in range(depth)) + f"/leaf{i}",
+                          pick_size(rng, pl, 3), cs + i])
     elif layout == "flat":
         n = rng.randint(max(min_files, 1), 8)
         for i, nm in enumerate(_names(rng, n, pool)):
@@ -193,7 +206,7 @@ def gen_tree(rng, pl, tier="quick", layout=None, allow_single=True, min_files=1,
     if nonempty_total and sum(f[1] for f in files) == 0:
         files[rng.randrange(len(files))][1] = rng.choice([1, pl - 1, pl, pl + 1])
     links = []
-    if rng.random() < 0.08 and layout not in ("many",):
+    if rng.random() < 0.08 and layout not in ("many", "thousands", "abyss"):
         # hard links: several ordinary directory entries for one inode (regular files, not symlinks)
         existing = {f[0] for f in files}
         for _ in range(rng.choice([1, 1, 2])):
@@ -225,6 +238,10 @@ URL_POOL = [
 
 
 def pick_urls(rng, lo=1, hi=3):
+    if hi >= 2 and rng.random() < 0.02:
+        # a very long list (public tracker lists have hundreds of entries), some of them very long URLs
+        return [f"http://tracker{k}.example.org:{1024 + k}/announce" + ("/x" * 400 if k % 97 == 0 else "")
+                for k in range(rng.randint(120, 300))]
     n = rng.randint(lo, hi)
     pool = list(URL_POOL)
     rng.shuffle(pool)
